@@ -5,7 +5,7 @@
 (* line - the cases the real helpers are then run on, with the model's expectation.        *)
 EXTENDS IoHelpers, TLC, Json, SequencesExt
 
-CONSTANTS Family,   \* "rte" | "rte5" | "rte2" | "rex" | "rts" | "rtsbig" | "utf8" | "wa" | "wf" | "all"
+CONSTANTS Family,   \* "rte" | "rte5" | "rte2" | "rex" | "rts" | "rtsbig" | "utf8" | "eintr" | "wa" | "wf" | "all"
           L,        \* maximal script length (including the terminal item)
           GrowExtra \* further capacities reserve(32) may yield: len + 32 + x for x in GrowExtra
 
@@ -83,6 +83,25 @@ FourByte == {<<a, b, c, d>> : a \in {240, 241, 243, 244, 245}, b \in {127, 128, 
 Utf8Strings == UNION {[1..k -> Edge] : k \in 1..(L - 1)} \cup FourByte
 Utf8Cases == {Case("read_to_string", <<C(Len(d)), EOF_>>, d, <<>>, 0, 0, <<>>) : d \in Utf8Strings}
 
+\* long runs of consecutive EINTRs (no bound on them in the statement): before the first piece, in
+\* the middle, before end of file / the error, and on the exact-fit probe read
+EINTRS(k) == [t |-> "eintr", k |-> k]
+Runs == {130, 300, 1000}
+EintrReadScripts == UNION {{<<EINTRS(k), C(33), EINTRS(k), C(2), EINTRS(k), tm>>, <<C(1), EINTRS(k), C(5), EINTRS(k), tm>>,
+                            <<EINTRS(k), tm>>, <<C(32), EINTRS(k), C(32), EINTRS(k), C(1), tm>>} : k \in Runs, tm \in {EOF_, ERR(5)}}
+EintrCases ==
+    {Case("read_to_end", s, IdData(Total(s)), IdInit(lc[1]), lc[2], 0, <<>>) : s \in EintrReadScripts, lc \in {<<0, 0>>, <<31, 32>>, <<0, 32>>, <<5, 37>>}}
+    \cup {Case("read_exact", s, IdData(Total(s)), <<>>, 0, n, <<>>) : s \in EintrReadScripts, n \in {1, 6, 35, 65}}
+    \cup {Case("read_to_string", <<EINTRS(k), C(1), EINTRS(k), C(2), EINTRS(k), C(1), EINTRS(k), tm>>, d, ic[1], ic[2], 0, <<>>) :
+              k \in Runs, tm \in {EOF_, ERR(5)}, d \in {<<97, 226, 130, 172>>, <<97, 195, 40, 98>>}, ic \in {<<<<>>, 0>>, <<<<65, 195, 169>>, 3>>}}
+    \cup {Case("read_to_string", <<C(31), EINTRS(k), C(2), EINTRS(k), tm>>, Pad(31) \o <<195, 169>>, <<>>, 32, 0, <<>>) :
+              k \in Runs, tm \in {EOF_, ERR(5)}}
+    \cup {Case("write_all", s, IdData(5), <<>>, 0, 0, <<5>>) :
+              s \in UNION {{<<EINTRS(k), A(2), EINTRS(k), A(100)>>, <<EINTRS(k)>>, <<A(1), EINTRS(k), ERR(5)>>, <<EINTRS(k), ZERO>>} : k \in Runs}}
+    \cup {[Case("write_fmt", s, IdData(5), <<>>, 0, 0, p) EXCEPT !.ff = f] :
+              s \in UNION {{<<EINTRS(k), A(2), EINTRS(k), A(1), EINTRS(k)>>, <<A(1), EINTRS(k), ERR(5)>>} : k \in Runs},
+              p \in {<<2, 0, 3>>, <<1, 1, 1, 1, 1>>}, f \in {0, 1}}
+
 WItems == {A(1), A(2), A(32), A(100), ZERO, EINTR, ERR(5)}
 WScripts == SeqsUpTo(WItems, L)
 WaCases == {Case("write_all", s, IdData(m), <<>>, 0, 0, <<m>>) : s \in WScripts, m \in {0, 1, 5, 33}}
@@ -96,11 +115,12 @@ Cases == CASE Family = "rte" -> RteCases
            [] Family = "rts" -> RtsCases
            [] Family = "rtsbig" -> BigCases
            [] Family = "utf8" -> Utf8Cases
+           [] Family = "eintr" -> EintrCases
            [] Family = "wa" -> WaCases
            [] Family = "wf" -> WfCases
            \* all families in one run (one JVM: the quick tier)
            [] Family = "all" -> RteCases \cup Rte2Cases \cup RexCases \cup RtsCases \cup BigCases
-                                \cup Utf8Cases \cup WaCases \cup WfCases
+                                \cup Utf8Cases \cup WaCases \cup WfCases \cup EintrCases
 
 MCInit == \E c \in Cases : InitFor(c)
 
